@@ -40,14 +40,23 @@ pub fn real_f1() -> u32 {
     black_box(2001)
 }
 
-const N_REAL: usize = 4;
+const N_REAL: usize = 6;
+
+extern "C" fn lib_fake_labs(_x: libc::c_long) -> libc::c_long {
+    black_box(7001)
+}
+extern "C" fn lib_fake_atoi(_s: *const libc::c_char) -> libc::c_int {
+    black_box(7002)
+}
 
 fn real_target_ptr(i: usize) -> FuncPtr {
     match i {
         0 => injectorpp::func!(fn (real_t0)() -> u32),
         1 => injectorpp::func!(fn (real_t1)() -> u32),
         2 => injectorpp::func!(fn (real_t2)() -> u32),
-        _ => injectorpp::func!(real_generic::<u64>, fn() -> u32),
+        3 => injectorpp::func!(real_generic::<u64>, fn() -> u32),
+        4 => injectorpp::func!(libc::labs, unsafe extern "C" fn(libc::c_long) -> libc::c_long),
+        _ => injectorpp::func!(libc::atoi, unsafe extern "C" fn(*const libc::c_char) -> libc::c_int),
     }
 }
 fn real_target_call(i: usize) -> u32 {
@@ -55,7 +64,9 @@ fn real_target_call(i: usize) -> u32 {
         0 => black_box(real_t0 as fn() -> u32)(),
         1 => black_box(real_t1 as fn() -> u32)(),
         2 => black_box(real_t2 as fn() -> u32)(),
-        _ => black_box(real_generic::<u64> as fn() -> u32)(),
+        3 => black_box(real_generic::<u64> as fn() -> u32)(),
+        4 => unsafe { black_box(libc::labs as unsafe extern "C" fn(libc::c_long) -> libc::c_long)(-1104) as u32 },
+        _ => unsafe { black_box(libc::atoi as unsafe extern "C" fn(*const libc::c_char) -> libc::c_int)(b"1105\0".as_ptr() as *const libc::c_char) as u32 },
     }
 }
 fn real_target_orig(i: usize) -> u32 {
@@ -63,7 +74,9 @@ fn real_target_orig(i: usize) -> u32 {
         0 => 1000,
         1 => 1001,
         2 => 1002,
-        _ => 1108,
+        3 => 1108,
+        4 => 1104,
+        _ => 1105,
     }
 }
 fn real_target_addr(i: usize) -> u64 {
@@ -71,7 +84,9 @@ fn real_target_addr(i: usize) -> u64 {
         0 => real_t0 as fn() -> u32 as usize as u64,
         1 => real_t1 as fn() -> u32 as usize as u64,
         2 => real_t2 as fn() -> u32 as usize as u64,
-        _ => real_generic::<u64> as fn() -> u32 as usize as u64,
+        3 => real_generic::<u64> as fn() -> u32 as usize as u64,
+        4 => libc::labs as unsafe extern "C" fn(libc::c_long) -> libc::c_long as usize as u64,
+        _ => libc::atoi as unsafe extern "C" fn(*const libc::c_char) -> libc::c_int as usize as u64,
     }
 }
 /// the other instantiation of the generic function: a bystander that must never change
@@ -395,7 +410,9 @@ pub fn generate(profile: &str, seed: u64, index: u64) -> NScenario {
         for _ in 0..n_ops {
             let t = if !faked.is_empty() && rng.chance(2, 5) { *rng.pick(&faked) } else { rng.below(targets.len() as u64) as usize };
             let tr = &targets[t];
-            let kind = if tr.ret == "bool" {
+            let kind = if tr.kind == "real" && tr.idx >= 4 {
+                *rng.pick(&["libfake", "libfake", "libfake_unchecked"])
+            } else if tr.ret == "bool" {
                 *rng.pick(&["boolean", "boolean", "raw", "unchecked"])
             } else if tr.kind == "real" {
                 *rng.pick(&["raw", "checked", "unchecked", "closure", "fakemacro", "realfn", "fakecounted"])
@@ -742,7 +759,7 @@ impl<'a> Run<'a> {
         let mark = interpose::ledger_len();
         let mut val = Inst::Val(fid);
         let sig = self.sig(t);
-        let target_ptr = self.target_ptr(t, op.kind == "unchecked");
+        let target_ptr = self.target_ptr(t, op.kind == "unchecked" || op.kind == "libfake_unchecked");
         // "another thread is scheduled at every OS-call boundary of the installation and calls
         // the functions": a function that already has a fake must never show anything but a fake
         let new_val: (u32, u32) = match op.kind.as_str() {
@@ -751,6 +768,7 @@ impl<'a> Run<'a> {
             "fakemacro" => (2003, u32::MAX),
             "fakecounted" => (2004, u32::MAX),
             "realfn" => (if op.value { 2000 } else { 2001 }, u32::MAX),
+            "libfake" | "libfake_unchecked" => (if tr.idx == 4 { 7001 } else { 7002 }, u32::MAX),
             _ => (fid, if tr.ret == "bool" { 0xFF } else { u32::MAX }),
         };
         let mut watch: Vec<(String, usize, u64, Vec<(u32, u32)>)> = Vec::new();
@@ -787,6 +805,9 @@ impl<'a> Run<'a> {
                 // an expectation that is never met: the verifier panics at scope exit
                 "fakecounted" => inj.when_called(target_ptr).will_execute(injectorpp::fake!(func_type: fn() -> u32, returns: 2004, times: 1_000_000)),
                 "realfn" => inj.when_called(target_ptr).will_execute_raw(if op.value { injectorpp::func!(fn (real_f0)() -> u32) } else { injectorpp::func!(fn (real_f1)() -> u32) }),
+                // library code (libc) faked by a function of the test image: far apart, long trampoline form
+                "libfake" => inj.when_called(target_ptr).will_execute_raw(if tr.idx == 4 { injectorpp::func!(lib_fake_labs, unsafe extern "C" fn(libc::c_long) -> libc::c_long) } else { injectorpp::func!(lib_fake_atoi, unsafe extern "C" fn(*const libc::c_char) -> libc::c_int) }),
+                "libfake_unchecked" => inj.when_called_unchecked(target_ptr).will_execute_raw_unchecked(if tr.idx == 4 { injectorpp::func_unchecked!(lib_fake_labs) } else { injectorpp::func_unchecked!(lib_fake_atoi) }),
                 k => panic!("harness: unknown kind {k}"),
             }
         }));
@@ -816,6 +837,7 @@ impl<'a> Run<'a> {
             "closure" => val = Inst::Val(2002),
             "fakemacro" => val = Inst::Val(2003),
             "fakecounted" => val = Inst::Val(2004),
+            "libfake" | "libfake_unchecked" => val = Inst::Val(if tr.idx == 4 { 7001 } else { 7002 }),
             "realfn" => val = Inst::Val(if op.value { 2000 } else { 2001 }),
             _ => {}
         }
